@@ -22,6 +22,8 @@ def c16_differential(pid, stage, tier, seed, outdir, chk):
         # fails in this build is this build not behaving as its configuration says -- reported under C16, named after
         # the monitor that saw it and the build
         for v in m["violations"]:
+            if isinstance(v.get("replay"), dict) and v["replay"].get("kind") == "session":
+                v["replay"]["variant"] = name  # replay in the build that showed it
             if v["property"] != pid:
                 v["clause"] = "%s:%s" % (v["property"], v["clause"])
                 v["tag"] = "%s@%s" % (v["tag"], name)
